@@ -47,6 +47,7 @@ Inductive malt : Type :=
 | MCurrent (v : N) | MQuery (v : N) | MActual (v : N)
 | MKey (d : bytes)
 | MHistEntry (k : N) | MHistDrop (k : N) | MHistSet (k : N) (d : bytes)
+| MHistAdd (i : N) (h : nat) (d : bytes)      (* an extra entry History["i|h"] = d (overrides an existing one) *)
 | MHyperEntry (k : N) | MHyperDrop (k : N) | MHyperSet (k : N) (d : bytes)
 | MHistClear | MHyperClear.
 
@@ -91,6 +92,7 @@ Definition apply_malt (a : Bans) (m : malt) : Bans :=
   | MHistEntry k => upd ex key hp (alter_nth (N.to_nat k) (canon hist)) cur q act
   | MHistDrop k => upd ex key hp (drop_nth (N.to_nat k) (canon hist)) cur q act
   | MHistSet k d => upd ex key hp (set_nth (N.to_nat k) d (canon hist)) cur q act
+  | MHistAdd i h d => upd ex key hp (canon hist ++ [((i, h), d)]) cur q act
   | MHyperEntry k => upd ex key (halter_nth (N.to_nat k) (hcanon' hp)) hist cur q act
   | MHyperDrop k => upd ex key (drop_nth (N.to_nat k) (hcanon' hp)) hist cur q act
   | MHyperSet k d => upd ex key (set_nth (N.to_nat k) d (hcanon' hp)) hist cur q act
